@@ -23,7 +23,7 @@ TECHNIQUE = 'exhaustive microsecond sweep + exact-rational oracle on adversarial
 RULE = ('(a) all 10^6 microseconds x seconds values; (d) boundary-adjacent fractions; non-trivial = value whose sub-second part is non-zero; '
         'distinct = (part, seconds value, block) / (resolution, fraction class)')
 ASSUMPTIONS = ['datetime64 conversions are specified to truncate (within one unit), not to round']
-REQUIRED = ['writer_roundtrip_other_units', 'raw_rewritten', 'derived_array_conversions', 'time_track_exact_points', 'raw_scalar_paths', 'roundtrip_scalar', 'roundtrip_array', 'writer_roundtrip_values', 'raw_pairs_bit_exact', 'conversions_checked', 'monotone_pairs',
+REQUIRED = ['roundtrip_scalar_ns', 'writer_roundtrip_other_units', 'raw_rewritten', 'derived_array_conversions', 'time_track_exact_points', 'raw_scalar_paths', 'roundtrip_scalar', 'roundtrip_array', 'writer_roundtrip_values', 'raw_pairs_bit_exact', 'conversions_checked', 'monotone_pairs',
             'scalar_vs_array', 'time_tracks', 'defragment_raw']
 EXHAUSTIVE = {'quick': False, 'thorough': False}
 SECONDS = {
@@ -76,6 +76,18 @@ def sweep(case, ctx):
         ctx.count('roundtrip_scalar')
         if r != v or r.dtype != np.dtype('M8[us]'):
             ctx.violation('microsecond-roundtrip/scalar-path', {'written': str(v), 'read': str(r), 'bytes': b.hex()})
+    # the same instants held at nanosecond resolution (pandas' default unit) must be written identically
+    if np.datetime64('1678-01-01') < base < np.datetime64('2262-01-01'):
+        for v, b in list(zip(vals, blobs))[::37] + list(zip(vals, blobs))[-3:]:
+            ctx.count('roundtrip_scalar_ns')
+            try:
+                bn = TimeStamp(v.astype('M8[ns]')).bytes
+            except Exception as ex:
+                ctx.violation('microsecond-roundtrip/nanosecond-unit-raises/%s' % util.exc_key(ex), {'value': str(v.astype('M8[ns]'))})
+                break
+            if bn != b:
+                ctx.violation('microsecond-roundtrip/nanosecond-unit-differs', {'value': str(v.astype('M8[ns]')), 'bytes_ns': bn.hex(), 'bytes_us': b.hex()})
+                break
     arr = TimeStamp.from_bytes(np.frombuffer(b''.join(blobs), dtype='u1'), '<')
     back = arr.as_datetime64('us')
     ctx.count('roundtrip_array', len(vals))
@@ -105,7 +117,7 @@ def writer_rt(case, ctx):
     props['py'] = vals[7].astype(object)
     # the same kind of instants held in datetime64 arrays of other units (what pandas / np.datetime64('now') users pass)
     units = {'ms': vals[:500].astype('M8[ms]'), 's': vals[:500].astype('M8[s]')}
-    if abs(secs) < 9 * 10 ** 9:
+    if abs(secs) < 9.2 * 10 ** 9:
         units['ns'] = vals[:500].astype('M8[ns]')
     if abs(secs) < 10 ** 11:
         units['D'] = vals[:500].astype('M8[D]')
